@@ -135,7 +135,7 @@ class CollectionStore(object):
                 yield doc
 
     def _remove_expired_documents(self):
-        for index in self._ttl_indexes.values():
+        for index in list(self._ttl_indexes.values()):
             self._expire_documents(index)
 
     def _expire_documents(self, index):
@@ -163,7 +163,11 @@ class CollectionStore(object):
             ]
 
         for exp_id in expired_ids:
-            del self[exp_id]
+            try:
+                del self[exp_id]
+            except KeyError:
+                # Already removed by a concurrent expiry pass or delete.
+                pass
 
     def _value_meets_expiry(self, val, expiry, ttl_now):
         val_to_compare = _get_min_datetime_from_value(val)
